@@ -29,7 +29,8 @@ def gen_history(rnd, mode, idx, flavour_cycle):
     return {"mode": mode, "target": rnd.choice(["logger", "logger", "bare"]), "producers": producers, "msgs": max(msgs, 5),
             "sink": rnd.choice([0, 1, 2, 3, 4]), "noise": rnd.choice(NOISES).format(s=rnd.randint(1, 10 ** 6)),
             "cores": cores, "seed": rnd.randint(1, 10 ** 9), "burst": rnd.choice([0, 1, 10, 100, 500]),
-            "flavour": flavour, "switches": (rnd.choice([0, 0, 0, 5, 40]) if mode == "c02" else 0)}
+            "flavour": flavour, "switches": (rnd.choice([0, 0, 0, 5, 40]) if mode == "c02" else 0),
+            "variant": (rnd.choice(["plain", "plain", "plain", "early", "twohop"]) if mode == "c03" else "plain")}
 
 
 def run_history(ctx, h, idx):
@@ -41,9 +42,11 @@ def run_history(ctx, h, idx):
     prefix = os.path.join(d, "tsan")
     if h["flavour"] == "tsan":
         env["TSAN_OPTIONS"] = tsan.options(prefix)
-    argv = [exe, h["mode"], out, h["target"], str(h["producers"]), str(h["msgs"]), str(h["sink"]), h["noise"], str(h["cores"]), str(h["seed"])]
+    argv = [exe, h["mode"], out, h["target"] if h["mode"] != "c02b" else h["fmt"], str(h["producers"]), str(h["msgs"]), str(h["sink"]), h["noise"],
+            str(h["cores"]), str(h["seed"])]
     if h["mode"] == "c03":
         argv.append(str(h["burst"]))
+        argv.append(h.get("variant", "plain"))
     elif h.get("switches"):
         argv.append(str(h["switches"]))
     res = {"rc": None, "err": "", "v": [], "stats": {}, "tsan": None, "hooks": "", "stacks": ""}
@@ -87,6 +90,8 @@ def run_history(ctx, h, idx):
             res["rc"] = "incomplete"
         elif h["mode"] == "c02":
             res["v"], res["stats"] = hist_conc.check_c02(recs)
+        elif h["mode"] == "c02b":
+            res["v"], res["stats"] = hist_conc.check_c02b(recs)
         else:
             res["v"], res["stats"] = hist_conc.check_c03(recs, h["target"])
     if h["flavour"] == "tsan":
